@@ -194,11 +194,20 @@ theorem clipInv_process (cfg : Cfg α β) (S : St σ) (inb : Option (InBuf β)) 
   · unfold process
     simp only [hn, and_self, if_true]
     exact hfl
-  · by_cases hs : cfg.isplit = true ∧ cfg.osplit = true
-    · rw [process_split_eq cfg S inb ilen0 fr wi op olen rs hs hn]
+  · by_cases hE : S.error.isSome = true
+    · rw [process_err cfg S inb ilen0 fr wi op olen rs hn hE]; exact hfl
+    have hEn : S.error = none := by
+      cases hS : S.error with
+      | none => rfl
+      | some e => rw [hS] at hE; simp at hE
+    have hEf : (procFlush cfg S inb ilen0 fr wi olen).error.isSome = false := by
+      show S.error.isSome = false
+      rw [hEn]; rfl
+    by_cases hs : cfg.isplit = true ∧ cfg.osplit = true
+    · rw [process_split_eq cfg S inb ilen0 fr wi op olen rs hs hn hEn]
       exact clipInv_outputNoCb cfg _ _ (clipInv_feedOpt cfg _ inb _ hfl)
     · unfold process
-      simp only [hn, hs, if_false]
+      simp only [hn, hs, if_false, hEf, Bool.false_eq_true]
       apply clipInv_output
       split
       · exact clipInv_input cfg _ _ _ hfl
@@ -282,12 +291,21 @@ theorem process_len (cfg : Cfg α β) (S : St σ) (inb : Option (InBuf β)) (ile
   · unfold process
     simp only [hn, and_self, if_true]
     rfl
-  · by_cases hs : cfg.isplit = true ∧ cfg.osplit = true
-    · rw [process_split_eq cfg S inb ilen0 fr wi op olen rs hs hn]
+  · by_cases hE : S.error.isSome = true
+    · rw [process_err cfg S inb ilen0 fr wi op olen rs hn hE]; rfl
+    have hEn : S.error = none := by
+      cases hS : S.error with
+      | none => rfl
+      | some e => rw [hS] at hE; simp at hE
+    have hEf : (procFlush cfg S inb ilen0 fr wi olen).error.isSome = false := by
+      show S.error.isSome = false
+      rw [hEn]; rfl
+    by_cases hs : cfg.isplit = true ∧ cfg.osplit = true
+    · rw [process_split_eq cfg S inb ilen0 fr wi op olen rs hs hn hEn]
       rw [outputNoCb_len]
       simp [feedOpt]
     · unfold process
-      simp only [hn, hs, if_false]
+      simp only [hn, hs, if_false, hEf, Bool.false_eq_true]
       rw [output_len]
       split
       · rw [input_len]; rfl
